@@ -10,6 +10,10 @@ caller asks for an element (`at`).
 """
 
 
+from .symint import ite, smin, smax, clamp
+from ..engine import is_symbolic as is_sym
+
+
 class Seg:
     __slots__ = ('src', 'lo', 'hi')
 
@@ -42,19 +46,18 @@ class Seq:
         return Seq(self.segs + other.segs)
 
     def cut(self, a, b):
-        """rows a..b-1; requires 0 <= a <= b <= length (caller clamps)."""
+        """rows a..b-1 (fork-free: segments outside the range become empty segments)."""
         out = []
         pos = 0
         for s in self.segs:
             n = s.hi - s.lo
-            # overlap of [pos, pos+n) with [a, b)
-            lo = a - pos
-            hi = b - pos
-            if lo < 0:
-                lo = 0
-            if hi > n:
-                hi = n
-            if hi > lo:
+            # overlap of [pos, pos+n) with [a, b), clamped into [0, n]
+            lo = clamp(a - pos, 0, n)
+            hi = clamp(b - pos, lo, n)
+            if isinstance(lo, int) and isinstance(hi, int) and not is_sym(lo) and not is_sym(hi):
+                if hi > lo:
+                    out.append(Seg(s.src, s.lo + lo, s.lo + hi))
+            else:
                 out.append(Seg(s.src, s.lo + lo, s.lo + hi))
             pos = pos + n
         return Seq(out)
@@ -78,6 +81,20 @@ class Seq:
 
 
 def clamp_slice(start, stop, n):
+    """CPython slice.indices(n) for step None/1 -> (a, b) with 0 <= a <= b <= n (fork-free)."""
+    if start is None:
+        a = 0
+    else:
+        a = clamp(ite(start < 0, start + n, start), 0, n)
+    if stop is None:
+        b = n
+    else:
+        b = clamp(ite(stop < 0, stop + n, stop), 0, n)
+    b = smax(a, b)
+    return a, b
+
+
+def _clamp_slice_forking(start, stop, n):
     """CPython slice.indices(n) for step None/1: returns (a, b) with 0<=a<=b'<=n where
     the slice denotes rows a..max(a,b)-1."""
     if start is None:
